@@ -685,7 +685,7 @@ def c14(ctx):
              irr={"method": 1, "SMT": [70.0] * 4}, off_season=True, _ext_days=400),
         dict(id=14902, start="1984/05/01", end="1988/12/30", weather={"kind": "file", "name": "champion_climate.txt"},
              soil={"type": "SandyLoam"}, crop={"name": "Maize", "planting": "05/01", "overrides": {}},
-             irr={"method": 0}, co2={"constant": False, "series": [[1980, 338.0], [1990, 354.0], [2000, 369.0], [2010, 390.0]]},
+             irr={"method": 0}, co2={"constant": False, "series": [[1980, 338.0], [1983, 343.0], [1986, 347.5], [1989, 353.0], [1992, 356.5], [1995, 361.0]]},
              off_season=False, _ext_days=1500),
     ] + scs
     for sc in scs:
@@ -991,7 +991,8 @@ def rejection_unjustified(sc, err, model):
             return None
         cs = getattr(model, "_clock_struct", None)
         start, end = pd.Timestamp(sc["start"]), pd.Timestamp(sc["end"])
-        pdates = list(getattr(cs, "planting_dates", []) or []) if cs is not None else []
+        pd_raw = getattr(cs, "planting_dates", None) if cs is not None else None
+        pdates = list(pd_raw) if pd_raw is not None else []
         k = int(getattr(cs, "season_counter", 0)) if cs is not None else 0
         if pdates and "reset_initial_conditions" in (err[2] if len(err) > 2 else ""):
             pl = pd.Timestamp(pdates[min(max(k, 0), len(pdates) - 1)])
@@ -1156,6 +1157,14 @@ def c16_scenarios(seed, tier):
                         soil={"type": ["SandyLoam", "Loam", "ClayLoam", "SiltLoam", "Clay"][j]},
                         crop={"name": crop, "planting": pl, "overrides": {}}, irr={"method": j % 3},
                         off_season=bool(j % 2), c16_leap_day=False, fm=None, ffm=None, gw=None, co2=None))
+    # ... and three-season windows of the same crops started in every third year of the record (the harvest-date
+    # template is fixed by the first season: a warm first year followed by a cool one)
+    for crop, pl in (("MaizeChampionGDD", "05/01"), ("SunflowerGDD", "05/10")):
+        for y in range(1982, 2015, 3 if tier == "quick" else 1):
+            out.append(dict(id=f"c16-{crop}-{y}", start=f"{y}/{pl}", end=f"{y + 2}/11/30",
+                            weather={"kind": "file", "name": "champion_climate.txt"}, soil={"type": "SandyLoam"},
+                            crop={"name": crop, "planting": pl, "overrides": {}}, irr={"method": 0},
+                            off_season=False, c16_leap_day=False, fm=None, ffm=None, gw=None, co2=None))
     return out
 
 
